@@ -69,7 +69,8 @@ def pure_locals(fn):
     params = {a.arg for a in fn.args.args}
     def pure(v):
         for y in ast.walk(v):
-            if isinstance(y, ast.Call) and not (isinstance(y.func, ast.Name) and y.func.id in ("str", "len", "int", "float", "abs", "min", "max", "isinf", "sum")):
+            if isinstance(y, ast.Call) and not (isinstance(y.func, ast.Name) and y.func.id in ("str", "len", "int", "float", "abs", "min", "max", "isinf", "sum")) \
+                    and not (isinstance(y.func, ast.Attribute) and y.func.attr == "increment_time" and unparse(y.func.value) == "self"):      # (pure date arithmetic)
                 return False
             if isinstance(y, (ast.Lambda, ast.ListComp, ast.GeneratorExp, ast.DictComp, ast.SetComp, ast.Yield)):
                 return False
